@@ -312,23 +312,24 @@ theorem removeTags_ok : ∀ (rs : List FieldRef) (c : Ctx), tagKeysDistinct rs =
       rw [lookupT_filter_ne hne]
       exact hp r' (by simp [hr'])
 
+/-- Since the fix of F-10 the imports of a fold are pairwise distinct by well-formedness (`WFq`), so
+`imported_tags.remove(..).unwrap()` cannot fail: no guard, no known site. -/
 theorem removeTags_safe (W : World) (rs : List FieldRef) (c : Ctx)
-    (hd : W.G → tagKeysDistinct rs = true)
+    (hd : tagKeysDistinct rs = true)
     (hp : ∀ r ∈ rs, (lookupT c.importedTags r.key).isSome = true) :
     Safe W.G (fun c' => SameMaps c c' ∧ c'.active = c.active ∧
       ∀ k, (∀ r ∈ rs, r.key ≠ k) → lookupT c'.importedTags k = lookupT c.importedTags k)
       (removeTags rs c) := by
-  cases h : removeTags rs c with
-  | ok c' => exact removeTags_shape rs c c' h
-  | fuel => exact absurd h (removeTags_ne_fuel rs c)
-  | panic s =>
-    refine ⟨by rw [removeTags_site rs c s h]; decide, fun g => ?_⟩
-    obtain ⟨c', hc'⟩ := removeTags_ok rs c (hd g) hp
-    rw [h] at hc'; cases hc'
+  obtain ⟨c', hc'⟩ := removeTags_ok rs c hd hp
+  rw [hc']
+  exact removeTags_shape rs c c' hc'
 
 
 /-! ### post-filters on the fold count -/
 
+/-- One post-filter.  `hnone`: a fold whose slot holds `None` (the fold does not exist: it hangs off a
+missing `@optional` vertex) is filtered in a context without active vertex — the placeholder `Null`
+that `apply_fold_specific_filter` pushes (fix of F-9) is never looked at by an operator. -/
 theorem applyPostFilter_safe (W : World) {comp : Component} {chain : List FieldRef} {st : WState}
     {eids : List Eid} {fold : Fold} {fromV : IRVertex}
     (hso : soLocal W.S chain comp = true) (hfromV : comp.vertex? fold.fromVid = some fromV)
@@ -337,24 +338,22 @@ theorem applyPostFilter_safe (W : World) {comp : Component} {chain : List FieldR
     (hty : filterTyped W.S comp fromV.typeName fold.fromVid ⟨"Int", [false]⟩ pf = true)
     (hnt : W.G → filterNoTrigger W.D W.args ⟨"Int", [false]⟩ pf = true)
     {c : Ctx} (hc : VPre W comp chain st eids fromV.typeName c) {cnt : Option Nat}
-    (hcnt : lookupC c.foldCounts fold.eid = some cnt) (hF9 : W.G → cnt.isSome = true) :
+    (hcnt : lookupC c.foldCounts fold.eid = some cnt) (hnone : cnt = none → c.active = none) :
     Safe W.G (fun o => ∀ c', o = some c' → c' = c) (applyPostFilter W.env comp fold pf c) := by
-  unfold applyPostFilter
-  rw [foldCount?_eq, hcnt]
-  cases cnt with
-  | none =>
-    refine ⟨by decide, fun g => ?_⟩
-    have := hF9 g
-    simp at this
-  | some n =>
-    simp only [R.bind_eq_bind, R.pure_eq_ok]
+  -- the two existing slots run the same filter stage, on different pushed values
+  have key : ∀ v : Value, (∀ x, c.active = some x → validQ ⟨"Int", [false]⟩ v = true) →
+      Safe W.G (fun o => ∀ c', o = some c' → c' = c)
+        ((applyFilter W.env comp fold.fromVid pf [c.pushValue v]).bind fun out =>
+          match out with
+          | [] => R.ok none
+          | c' :: _ => R.ok (some c')) := by
+    intro v hv
     refine Safe.bind (applyFilter_safe W (st := st) (eids := eids) (leftTy := ⟨"Int", [false]⟩) hso
-      hfromV hvt hwf hty hnt [c.pushValue (.uint64 (UInt64.ofNat n))] ?_) ?_
+      hfromV hvt hwf hty hnt [c.pushValue v] ?_) ?_
     · intro c0 hc0
       simp only [List.mem_singleton] at hc0
       subst hc0
-      exact ⟨hc.verts, hc.counts, hc.tags, hc.act, _, _, rfl,
-        fun _ _ => by simp [validQ, validNulls]⟩
+      exact ⟨hc.verts, hc.counts, hc.tags, hc.act, _, _, rfl, hv⟩
     · intro out hout
       cases out with
       | nil => simp
@@ -367,9 +366,19 @@ theorem applyPostFilter_safe (W : World) {comp : Component} {chain : List FieldR
         subst hc0
         simp only [Ctx.pushValue, hc.vals, List.cons.injEq] at hvals
         obtain ⟨_, rfl⟩ := hvals
-        have := Ctx.push_pop c (.uint64 (UInt64.ofNat n))
+        have := Ctx.push_pop c v
         rw [hc.vals] at this
         exact this
+  unfold applyPostFilter
+  rw [foldCount?_eq, hcnt]
+  cases cnt with
+  | none =>
+    have hact := hnone rfl
+    simp only [R.bind_eq_bind, R.pure_eq_ok]
+    exact key .null (fun x hx => by rw [hact] at hx; cases hx)
+  | some n =>
+    simp only [R.bind_eq_bind, R.pure_eq_ok]
+    exact key (.uint64 (UInt64.ofNat n)) (fun _ _ => by simp [validQ, validNulls])
 
 theorem applyPostFilters_safe (W : World) {comp : Component} {chain : List FieldRef} {st : WState}
     {eids : List Eid} {fold : Fold} {fromV : IRVertex}
@@ -379,14 +388,14 @@ theorem applyPostFilters_safe (W : World) {comp : Component} {chain : List Field
     (hty : ∀ pf ∈ fs, filterTyped W.S comp fromV.typeName fold.fromVid ⟨"Int", [false]⟩ pf = true)
     (hnt : W.G → ∀ pf ∈ fs, filterNoTrigger W.D W.args ⟨"Int", [false]⟩ pf = true)
     {c : Ctx} (hc : VPre W comp chain st eids fromV.typeName c) {cnt : Option Nat}
-    (hcnt : lookupC c.foldCounts fold.eid = some cnt) (hF9 : W.G → fs ≠ [] → cnt.isSome = true) :
+    (hcnt : lookupC c.foldCounts fold.eid = some cnt) (hnone : cnt = none → c.active = none) :
     Safe W.G (fun o => ∀ c', o = some c' → c' = c) (applyPostFilters W.env comp fold fs c) := by
   induction fs with
   | nil => simp [applyPostFilters]
   | cons pf fs ih =>
     simp only [applyPostFilters, R.bind_eq_bind, R.pure_eq_ok]
     refine Safe.bind (applyPostFilter_safe W hso hfromV hvt (hwf pf (by simp)) (hty pf (by simp))
-      (fun g => hnt g pf (by simp)) hc hcnt (fun g => hF9 g (by simp))) ?_
+      (fun g => hnt g pf (by simp)) hc hcnt hnone) ?_
     intro o ho
     cases o with
     | none => simp
@@ -396,7 +405,6 @@ theorem applyPostFilters_safe (W : World) {comp : Component} {chain : List Field
       simp only
       exact ih (fun pf hpf => hwf pf (by simp [hpf])) (fun pf hpf => hty pf (by simp [hpf]))
         (fun g pf hpf => hnt g pf (by simp [hpf]))
-        (fun g hne => hF9 g (by simp))
 
 
 end TF.Engine
